@@ -478,6 +478,23 @@ func runC17(c *c17Case) (v *vcommon.Violation, nontrivial, inconclusive bool) {
 	}
 	// migration: a member joins, fragments move, everything reads back from every path
 	if c.Join {
+		// superseded versions and deleted neighbours first: the tables that migrate then carry garbage
+		for i, it := range c.Items {
+			key := string(it.Key)
+			dm, pl, err := handle(it.Path, key)
+			if err != nil {
+				return nil, nontrivial, true
+			}
+			if i%2 == 0 {
+				if err := c17Put(ctx, dm, pl, key, it.Val); err != nil {
+					return bad("put-error", "re-writing key %q failed: %v", it.Key, err), nontrivial, false
+				}
+			}
+			gk := fmt.Sprintf("garbage-%d", i)
+			if err := dm.Put(ctx, gk, []byte("to-be-deleted")); err == nil {
+				_, _ = dm.Delete(ctx, gk)
+			}
+		}
 		if _, err := cl.addMember(); err != nil {
 			return nil, nontrivial, true
 		}
